@@ -19,9 +19,9 @@ struct St
   int limit;           // what the bound is checked against during a loop
   int nloops;
 } st;
-enum { P_BOUND_ATTAINED = 0, P_REINIT, P_NONPOSITIVE_FIRST, P_QUERY_BEFORE_INIT, P_N_ABOVE_CORES, P_PARALLEL_GE2, P_NESTED, P_LARGE_N };
+enum { P_BOUND_ATTAINED = 0, P_REINIT, P_NONPOSITIVE_FIRST, P_QUERY_BEFORE_INIT, P_N_ABOVE_CORES, P_PARALLEL_GE2, P_NESTED, P_LARGE_N, P_AFFINITY };
 const char *probe_names[] = {"thread_bound_attained", "reinitialised_with_other_n", "first_init_nonpositive", "queried_before_init",
-                             "n_above_core_count", "two_or_more_bodies_simultaneously", "nested_loop_planned", "init_with_16_to_129_threads", nullptr};
+                             "n_above_core_count", "two_or_more_bodies_simultaneously", "nested_loop_planned", "init_with_16_to_129_threads", "affinity_mask_smaller_than_online_cpus", nullptr};
 const char *no_faults[] = {nullptr};
 
 void reset()
@@ -41,6 +41,13 @@ void do_plan(int tier)
     plan.cores = many[sim_plan(tier ? 4 : 3)];
   }
   sim_set_cores(plan.cores);
+  plan.affinity = 0;
+  if (sim_plan(5) == 0) {
+    // the process is confined to fewer CPUs than are online (taskset, container cpuset)
+    plan.affinity = 1 + (int)sim_plan((uint32_t)(plan.cores > 16 ? 16 : plan.cores) - 1);
+    sim_probe(P_AFFINITY);
+  }
+  sim_set_affinity(plan.affinity);
   sim_set_tso(sim_plan(4) == 0);
   plan.nops = 2 + (int)sim_plan(8);
   for (int i = 0; i < plan.nops; i++) {
@@ -83,7 +90,7 @@ int stuck(int deadlock, char *cls, size_t n)
 }
 void describe(char *buf, size_t n)
 {
-  int k = snprintf(buf, n, "{\"cores\": %d, \"history\": [", plan.cores);
+  int k = snprintf(buf, n, "{\"cores\": %d, \"cpus_in_affinity_mask\": %d, \"history\": [", plan.cores, plan.affinity ? plan.affinity : plan.cores);
   for (int i = 0; i < plan.nops && k < (int)n - 80; i++) {
     const C13Op &op = plan.ops[i];
     if (op.kind == C13_INIT)
